@@ -83,6 +83,13 @@ var pooledBufferCalls = merge(bufferCalls, map[string]shim{
 	"Buffer.AppendInt": {kind: "mut", f: "Buffer.AppendInt"},
 })
 
+// *CheckedEntry: nil-ness, the dirty flag, ErrorOutput and the terminal hook (nil-able), the cores, and the trace of
+// every call Write makes to the outside (cores, ErrorOutput, hook, pool) in order
+var ceFields = map[string]fieldSpec{
+	"dirty": {"dirty", "bool"}, "ErrorOutput": {"eo", "opt:WriteSyncer"}, "after": {"after", "opt:Hook"},
+	"cores": {"cores", "[]Core"}, "Time": {"time", "Time"}, "Entry": {"entry", "Entry"}, "#ev": {"ev", "[]Event"},
+}
+
 var jsonEncFields = map[string]fieldSpec{
 	"buf":            {"buf", "Buffer"},
 	"spaced":         {"spaced", "bool"},
@@ -175,6 +182,20 @@ var transSpecs = []transSpec{
 				// decodeRune(x) is utf8.DecodeRuneInString / DecodeRune: (rune, size), modelled by Esc.validLen
 				"DecodeFn()": {kind: "extstmt", f: "decodeRune", res: []string{"i32", "int"}},
 			})},
+	}},
+	{table: "TransCE", funcs: []transFunc{
+		{file: "zapcore/entry.go", recv: "CheckedEntry", name: "Write", lean: "Write",
+			fields: ceFields, recvNil: "isnil", recvAs: &fieldSpec{"self", "CE"},
+			types: map[string]string{"Field": "Field"},
+			calls: map[string]shim{
+				// every call out of Write is an external intrinsic that is RECORDED: what is proved is their order and count
+				"Core.Write":           {kind: "extstmt", f: "Core.Write", res: []string{"error"}, trace: "#ev"},
+				"fmt.Fprintf":          {kind: "extstmt", f: "fmt.Fprintf", res: []string{"int", "error"}, trace: "#ev"},
+				"opt:WriteSyncer.Sync": {kind: "extstmt", f: "ErrorOutput.Sync", res: []string{"error"}, trace: "#ev"},
+				"opt:Hook.OnWrite":     {kind: "extstmt", f: "hook.OnWrite", trace: "#ev"},
+				"putCheckedEntry":      {kind: "extstmt", f: "putCheckedEntry", trace: "#ev"},
+				"multierr.Append":      {kind: "builtin", f: "append...", res: []string{"error"}},
+			}},
 	}},
 	{table: "TransJsonSep", funcs: []transFunc{
 		{file: "zapcore/json_encoder.go", recv: "jsonEncoder", name: "addElementSeparator", lean: "addElementSeparator",
